@@ -95,15 +95,20 @@ Judged(P, mode) ==
     \A i \in 2..N(P) : (P[i].op = "||" \/ (mode = "normal" /\ P[i].op = "&&")) => PipeEnd(P, i) = i
 
 (* ========================= operational machine =========================== *)
-VARIABLES prog, mode, i, skipPipe, ran, exit, cexit, done
+VARIABLES prog, mode, i, skipPipe, ran, exit, cexit, done, dereg
 \* cexit[k] = ExitNum field of process k as the scheduler sees it
-vars == <<prog, mode, i, skipPipe, ran, exit, cexit, done>>
+\* dereg[k] = how often process k (registered in the FID table by compile) has been released:
+\*            by executeProcess -> destroyProcess -> deregisterProcess when it is started (also
+\*            when it is started only to find itself skipped), or directly by the try schedulers
+\*            for the commands they never start                                            (C28)
+vars == <<prog, mode, i, skipPipe, ran, exit, cexit, done, dereg>>
 
 Init ==
     /\ prog \in Programs /\ mode \in Modes
     /\ i = 1 /\ skipPipe = FALSE /\ done = FALSE /\ exit = 0
     /\ ran = [k \in 1..Len(prog) |-> FALSE]
     /\ cexit = [k \in 1..Len(prog) |-> 0]
+    /\ dereg = [k \in 1..Len(prog) |-> 0]
 
 \* ---- runModeNormal: one iteration of `for i := range procs`
 StepNormal ==
@@ -115,12 +120,13 @@ StepNormal ==
        IN /\ skipPipe' = skip
           /\ ran' = [ran EXCEPT ![i] = ~skip]
           /\ cexit' = [cexit EXCEPT ![i] = IF skip THEN cexit[i - 1] ELSE prog[i].exit]
+    /\ dereg' = [dereg EXCEPT ![i] = @ + 1]
     /\ i' = i + 1
     /\ UNCHANGED <<prog, mode, exit, done>>
 FinishNormal ==
     /\ mode = "normal" /\ ~done /\ i > N(prog)
     /\ exit' = cexit[N(prog)] /\ done' = TRUE
-    /\ UNCHANGED <<prog, mode, i, skipPipe, ran, cexit>>
+    /\ UNCHANGED <<prog, mode, i, skipPipe, ran, cexit, dereg>>
 
 \* ---- runModeTry / runModeTryPipe: one iteration of `for i := 0; i < len; i++`
 \* the process is started; if it is the last of its pipeline (try) or always (trypipe) it is
@@ -131,22 +137,23 @@ StepTry ==
     /\ cexit' = [cexit EXCEPT ![i] = prog[i].exit]
     /\ LET next == i + 1
            waited == mode = "trypipe" \/ next > N(prog) \/ prog[next].op # "|"
+           RECURSIVE SkipTo(_)
+           SkipTo(k) == IF k <= N(prog) /\ prog[k].op = "||" THEN SkipTo(k + 1) ELSE k
+           Rel(S) == dereg' = [k \in 1..N(prog) |-> IF k = i \/ k \in S THEN dereg[k] + 1 ELSE dereg[k]]
        IN IF ~waited
-            THEN i' = next /\ UNCHANGED <<exit, done>>
+            THEN i' = next /\ Rel({}) /\ UNCHANGED <<exit, done>>
             ELSE /\ exit' = prog[i].exit
                  /\ IF next <= N(prog) /\ prog[i].exit < 1 /\ prog[next].op = "||"
                       THEN \* skip the alternative - and every alternative that follows it
-                           LET RECURSIVE SkipTo(_)
-                               SkipTo(k) == IF k <= N(prog) /\ prog[k].op = "||" THEN SkipTo(k + 1) ELSE k
-                           IN i' = SkipTo(next) /\ UNCHANGED done
+                           i' = SkipTo(next) /\ Rel(next..(SkipTo(next) - 1)) /\ UNCHANGED done
                       ELSE IF next <= N(prog) /\ prog[i].exit > 0 /\ prog[next].op # "||"
-                             THEN done' = TRUE /\ UNCHANGED i      \* abort: rest deregistered
-                             ELSE i' = next /\ UNCHANGED done
+                             THEN done' = TRUE /\ Rel(next..N(prog)) /\ UNCHANGED i  \* abort: rest deregistered
+                             ELSE i' = next /\ Rel({}) /\ UNCHANGED done
     /\ UNCHANGED <<prog, mode, skipPipe>>
 FinishTry ==
     /\ mode \in {"try", "trypipe"} /\ ~done /\ i > N(prog)
     /\ done' = TRUE
-    /\ UNCHANGED <<prog, mode, i, skipPipe, ran, exit, cexit>>
+    /\ UNCHANGED <<prog, mode, i, skipPipe, ran, exit, cexit, dereg>>
 
 Next == StepNormal \/ FinishNormal \/ StepTry \/ FinishTry
 Spec == Init /\ [][Next]_vars
@@ -155,5 +162,7 @@ Spec == Init /\ [][Next]_vars
 Agree == (done /\ Judged(prog, mode)) =>
             /\ ran = Decl(prog, mode).ran
             /\ exit = Decl(prog, mode).exit
+\* C28: when the block has finished, every process it registered has been released exactly once
+Released == done => \A k \in 1..N(prog) : dereg[k] = 1
 Terminates == <>done
 =============================================================================
